@@ -1,4 +1,12 @@
-"""C18  Queries, sorts and enumeration never modify an index or their inputs."""
+"""C18  Queries, sorts and enumeration never modify an index or their inputs.
+
+`read prov <kind>`: the object-level read model (`HypatiaModel/ConcurrencyReads.lean`) predicts whether the
+container a read hands back is one the index stores (two calls return the very same object) or one allocated by
+the call.  Sanity check by mutation of this tie (scratch copies):
+  T5  `BaseIndexMixin.docids` tests `len(indexed) == 0` first (hands back the stored, empty not-indexed set of an
+      empty index)                                                                                caught
+  T6  `KeywordIndex.search` returns `IF.Set(rs)` instead of the stored posting                   caught
+"""
 import importlib
 
 from lib import qtree
